@@ -13,6 +13,7 @@ import (
 	"os"
 	"path/filepath"
 	"strings"
+	"sync"
 
 	"github.com/tetratelabs/wazero"
 	"github.com/tetratelabs/wazero/api"
@@ -40,7 +41,8 @@ type point struct {
 }
 
 var cacheNames = []string{"none", "in-memory", "dir-cold", "dir-warm(second process)", "shared:A-compiles-first", "shared:A-closes-its-compiled-module",
-	"shared:A-closes-its-runtime", "shared:B-compiles-first,A-compiles+closes-before-B-instantiates"}
+	"shared:A-closes-its-runtime", "shared:B-compiles-first,A-compiles+closes-before-B-instantiates",
+	"shared:A-and-B-compile-concurrently,A-closes-its-compiled-module"}
 
 func (p point) String() string {
 	return fmt.Sprintf("cache=%s capFromMax=%v guardmem=%v debugInfo=%v customSections=%v listeners=%d closeOnCtxDone=%v compiler=%v",
@@ -322,7 +324,7 @@ func child(mode string, in json.RawMessage) any {
 	var events int
 	var cache wazero.CompilationCache
 	switch pt.Cache {
-	case 1, 4, 5, 6, 7:
+	case 1, 4, 5, 6, 7, 8:
 		cache = wazero.NewCompilationCache()
 	case 2, 3:
 		pr.CacheHit = dirEntries(pc.Dir) > 0
@@ -382,6 +384,31 @@ func child(mode string, in json.RawMessage) any {
 		cleanupA()
 		got = runOn(sB, p, script)
 		sB.Close()
+	case 8:
+		// both runtimes miss the in-memory cache at the same time and both add their result
+		ptA := pt
+		ptA.NoDebug, ptA.Custom, ptA.CapMax = !pt.NoDebug, !pt.Custom, !pt.CapMax
+		var evA int
+		oA, cleanupA := options(ptA, cache, &evA)
+		sA := wrun.NewSession(oA, feats)
+		sB := wrun.NewSession(o, feats)
+		var wg sync.WaitGroup
+		start := make(chan struct{})
+		var errA, errB string
+		wg.Add(2)
+		go func() { defer wg.Done(); <-start; errA = sA.Compile(p) }()
+		go func() { defer wg.Done(); <-start; errB = sB.Compile(p) }()
+		close(start)
+		wg.Wait()
+		if errA != "" || errB != "" {
+			got = &wrun.Trace{Events: []string{"compile error: " + errA + errB}}
+		} else {
+			sA.CloseCompiled(p)
+			got = runOn(sB, p, script)
+		}
+		sB.Close()
+		sA.Close()
+		cleanupA()
 	default:
 		s := wrun.NewSession(o, feats)
 		got = runOn(s, p, script)
